@@ -6,7 +6,7 @@ from typing import Dict, List, Optional
 
 from ..core import Ctx
 from ..model import dotted, kwarg, norm, walk_no_nested
-from .common import assigned_value, enclosing, expand_locals, resolve_local
+from .common import assigned_value, enclosing, expand_locals, pargs, resolve_local
 
 ROLES = ("annotator", "label", "start", "end")
 
@@ -253,7 +253,7 @@ def run(ctx: Ctx):
         u, a = norm(loops[0].target.elts[0]), norm(loops[0].target.elts[1])
         src = assigned_value(g.node, norm(loops[0].iter)[:-8])
         cs = [c for c in ast.walk(loops[0]) if isinstance(c, ast.Call) and norm(c.func).endswith(".add_annotation")]
-        ok = len(cs) == 1 and [norm(x) for x in cs[0].args] == [u, a] and len(src) == 1 and norm(src[0].func) == "load_rttm" if src and isinstance(src[0], ast.Call) else False
+        ok = len(cs) == 1 and [norm(x) for x in pargs(M, cs[0])] == [u, a] and len(src) == 1 and norm(src[0].func) == "load_rttm" if src and isinstance(src[0], ast.Call) else False
     ctx.check(ok, "R-C18-5", g, loops[0] if loops else None, "one add_annotation(uri, annotation) per uri of the rttm file: uri used as annotator", key="rttm")
     h = ctx.fn("Continuum.add_annotation", "R-C18-5")
     loops = [L for L in walk_no_nested(h.node) if isinstance(L, ast.For)]
